@@ -32,6 +32,8 @@ def run(ctx):
             ctx.analysed_fns.add(fid)
             nat += len(sync.atomic_sites(fn))
             n += sync.check_then_act(ctx, fn)
+    vs_fns = [Fn(fx.raw(fid)) for fid in fx.fn_ids(VS) if "::tests::" not in fid]
+    sync.load_modify_store(ctx, vs_fns)
     ctx.instance("R-ATOM.atomic_sites", nat)
     ctx.floor("R-ATOM.atomic_sites", 15)
     # the exclusivity decision itself must exist: acquire_writer_token touches active_writers with a
